@@ -125,6 +125,7 @@ class PX:
             self.epoch, self.assumes, self.timeouts, self.top_frame = 0, [], [], None
             self.ctxstack = []
             self.refined = {}
+            self._memo_cache = {}
             try:
                 v = entry()
                 paths.append(self._path("return", v))
@@ -801,7 +802,10 @@ class PX:
                 else:
                     if isinstance(v, FuncRef):
                         if _is_property(v):
-                            return self.call_function(v, b, [], {}, fr)
+                            r = self.call_function(v, b, [], {}, fr)
+                            if any(d.endswith("cached_property") for d in v.decorators):
+                                b.fields[attr] = r  # functools.cached_property stores the value in the instance
+                            return r
                         if _is_static(v):
                             return v
                         return Bound(b, v)
@@ -861,6 +865,8 @@ class PX:
             return _PyMethod(b, attr)
         if isinstance(b, Closure):
             return Sym(f"{b.name}.{attr}")
+        if type(b).__module__ == "re":
+            return _PyMethod(b, attr)
         raise Unsupported(f"{fr.mod}:{getattr(e, 'lineno', '?')} getattr {attr} on {b!r}")
 
     def e_Tuple(self, e, fr):
@@ -1306,6 +1312,7 @@ class PX:
     def e_Call(self, e, fr, awaited=False):
         text = _text(e.func)
         if text.startswith(LOGGER_PREFIXES):
+            self.ev_args(e, fr)
             return None
         # super().method(...)
         if isinstance(e.func, ast.Attribute) and isinstance(e.func.value, ast.Call) and _text(e.func.value.func) == "super":
@@ -1340,6 +1347,15 @@ class PX:
             return self.builtin(fval.short, text, args, kw, fr, node)
         if isinstance(fval, TypeRef) and fval.name in ("functools.partial",):
             return Partial(args[0], args[1:], kw)
+        if isinstance(fval, TypeRef) and fval.name.startswith("re.") and not any(isinstance(a, (Sym, Obj)) or _has_sym(a) for a in list(args) + list(kw.values())):
+            import re as _real_re
+
+            fn = getattr(_real_re, fval.name[3:], None)
+            if callable(fn):
+                try:
+                    return fn(*[bytes(a) if isinstance(a, bytearray) else a for a in args], **kw)
+                except _real_re.error:
+                    raise Exc("error", (), origin=text)
         if isinstance(fval, TypeRef) and fval.name == "dataclasses.replace" and args and isinstance(args[0], Obj):
             o = Obj(args[0].cls, {**args[0].fields, **kw}, tag=args[0].tag)
             return o
@@ -1353,6 +1369,22 @@ class PX:
         if isinstance(fval, (Bound, FuncRef, Closure)):
             target = fval.func if isinstance(fval, Bound) else fval
             is_async = isinstance(target.node, ast.AsyncFunctionDef)
+            if isinstance(target, FuncRef) and any(d.split("(")[0].endswith(("lru_cache", "cache", "cached_property")) for d in target.decorators):
+                # memoised: the same call returns the very same object for the rest of the path
+                try:
+                    ckey = ("memo", target.qual, id(fval.recv) if isinstance(fval, Bound) else None, tuple(_hashable(a) for a in args), tuple(sorted(kw.items(), key=repr)))
+                    hash(ckey)
+                except TypeError:
+                    ckey = None
+                if ckey is not None:
+                    cache = self.__dict__.setdefault("_memo_cache", {})
+                    if ckey in cache:
+                        return cache[ckey]
+                    recv = fval.recv if isinstance(fval, Bound) else None
+                    self.emit("call", text, args, kw, node=node, frame=fr, extra="inlined")
+                    r = self.call_function(target, recv, args, kw, fr)
+                    cache[ckey] = r
+                    return r
             if self.should_inline(fval, awaited, fr) and (awaited or not is_async):
                 # an inlined helper is not itself a suspension point: always recorded as a plain call
                 self.emit("call", text, args, kw, node=node, frame=fr, extra="inlined")
@@ -1404,6 +1436,16 @@ class PX:
                     for m in cls.canonical_members():
                         if m.value == av:
                             return m
+                    try:
+                        miss = cls.method("_missing_")
+                    except KeyError:
+                        miss = None
+                    if miss is not None and (fr is None or fr.depth < self.max_depth):
+                        r = self.call_function(miss, cls, [av], {}, fr)
+                        if isinstance(r, Member):
+                            return r
+                        if r is None:
+                            raise Exc("ValueError", (av,), origin=text)
                     return Member(cls, f"undefined_0x{av:02x}", av)
                 return Sym(f"{cls.name}({_short(a)})")
         names = self.hier
@@ -1481,6 +1523,10 @@ class PX:
     # -- python-level methods on concrete containers
     def py_method(self, m, text, args, kw, fr, node):
         obj, name = m.obj, m.name
+        if type(obj).__module__ == "re":
+            if any(isinstance(a, (Sym, Obj)) for a in args):
+                return Sym(f"{text}#{self._count('call:' + text)}")
+            return getattr(obj, name)(*[bytes(a) if isinstance(a, bytearray) else a for a in args], **kw)
         mutators = {"append", "extend", "add", "pop", "remove", "clear", "update", "setdefault", "discard", "insert",
                     "popitem", "sort", "reverse"}
         if name in mutators and isinstance(obj, (list, dict, set, bytearray)):
